@@ -271,6 +271,29 @@ theorem ws_replies_in_message_order (cfg : Config) (env : Env) (tbl : Table) (ms
   refine ⟨ws_pairing cfg env tbl msgs, ?_⟩
   simp [wsLog, wsSession, List.flatMap_map]
 
+/-- Cancellation (a request deadline expiring while batch entries are still queued for a pool slot)
+costs no response: whichever prefix of the batch was dispatched before the context expired, and
+whatever the handlers of the remaining entries answer once they see a cancelled context
+(`envLate`, any environment with the same parameter typing), the responses carry exactly the same
+ids, in the same order, as without cancellation, and exactly the same handler calls are made. -/
+theorem cancellation_drops_no_response (cfg : Config) (env envLate : Env) (tbl : Table)
+    (early late : List Json) (h : SameBinding env envLate) :
+    (batchResponsesCancelled cfg env envLate tbl early late).map (·.id) =
+        (batchResponses cfg env tbl (early ++ late)).map (·.id)
+    ∧ batchLogCancelled cfg env envLate tbl early late = batchLog cfg env tbl (early ++ late) := by
+  obtain ⟨h1, h2⟩ := batchResponses_ids_congr h cfg tbl late
+  obtain ⟨a1, a2⟩ := batchResponses_append cfg env tbl early late
+  simp only [batchResponsesCancelled, batchLogCancelled, List.map_append, a1, a2, h1, h2, and_self]
+
+/-- The window behind the `TeeReader` — and with it everything the pretty printer computes — depends
+only on the bytes that were read, not on how the reads were segmented. (That the dispatcher's answer
+does not depend on the segmentation is built into the model: it is a function of the parsed value.
+That `Write` copies instead of keeping its argument, whose storage belongs to the JSON decoder, is
+tied by the harness: every request is also fed through segmenting readers.) -/
+theorem pretty_window_independent_of_segmentation (a b : List (List UInt8)) (h : a.flatten = b.flatten) :
+    Pretty.Win.writes {} a = Pretty.Win.writes {} b :=
+  Pretty.writes_segmentation_independent a b h
+
 /-! ## 5c. The parse-error pretty printer never indexes out of range (`pretty_error.go`) -/
 
 /-- After any sequence of reads (the chunks the JSON decoder pulls through the `TeeReader`), the
